@@ -50,4 +50,9 @@ def bulkReviewed : List (String × Bool × Bool) :=
    ("MoleculeStereo.add_atom_stereo", true, true), ("MoleculeStereo.add_cis_trans_stereo", true, true),
    ("AcidBase.neutralize", true, true)]
 
+/-- the in-place API: the only methods documented to hand out the object they are called on (`with mol:` binds the
+molecule itself; `union(copy=False)` / `|=` merge into it).  Every other operation that returns molecules — `copy`,
+`substructure`, `augmented_substructure(s)`, `split`, `&`, `-`, `|`, `union` — must return new objects. -/
+def inPlaceReturners : List String := ["MoleculeContainer.__enter__", "Graph.union#u"]
+
 end ChythonModel.Spec.Deps
